@@ -59,7 +59,7 @@ def case_text(verdict, marker):
 
 
 RUNS_ACT = ('PASS', 'FAIL', 'XFAIL', 'XPASS', 'INTERNAL_ERROR', 'FAIL_CTRL')
-IDENT = {'ACT_SYNTAX_ERROR': 'SYNTAX_ERROR', 'UNDECODABLE': 'INTERNAL_ERROR', 'FAIL_CTRL': 'FAIL'}
+IDENT = {'ACT_SYNTAX_ERROR': 'SYNTAX_ERROR', 'UNDECODABLE': 'FILE_ACCESS_ERROR', 'FAIL_CTRL': 'FAIL'}
 
 # hierarchy: name -> (files builder).  A hierarchy is {suite file path: {'suites': [lines], 'cases': [lines]}} plus the case slots
 #   slots: ordered list of case paths in *expected processing order* grouped by suite: [(suite display name, [case paths])]
